@@ -267,7 +267,7 @@ def run_kani(unit, cfg, text, scratch, jobs=8, only=None, playback=False):
         if only and h not in only:
             continue
         r.obligations.append({"id": obligation_id(props, name), "props": props, "clause": note, "backend": "kani/cbmc", "unit": unit.name})
-    cmd = ["cargo", "kani", "-j", str(jobs), "--output-format", "terse"] + list(unit.kani_flags)
+    cmd = ["cargo", "kani"] + ([] if playback else ["-j", str(jobs)]) + ["--output-format", "terse"] + list(unit.kani_flags)
     if playback:
         cmd += ["-Z", "concrete-playback", "--concrete-playback=print"]
     for h in (only or []):
@@ -291,44 +291,32 @@ def run_kani(unit, cfg, text, scratch, jobs=8, only=None, playback=False):
         errs = [norm_ws(l) for l in out.split("\n") if l.startswith("error")]
         r.undecided = "harness crate rejected by rustc/kani: " + "; ".join(errs[:4])[:600]
         return r
-    # per-harness results
+    # per-harness results: the summary names every failed harness; details come from the "Failed Checks" lines
     res = {}
-    cur = None
     blocks = {}
-    for line in out.split("\n"):
-        m = re.search(r"Checking harness ([\w:]+)", line)
-        if m:
-            cur = m.group(1).split("::")[-1]
-            blocks[cur] = []
-            continue
-        if cur:
-            blocks[cur].append(line)
-            m2 = re.search(r"VERIFICATION:- (SUCCESSFUL|FAILED)", line)
-            if m2:
-                res[cur] = m2.group(1)
-                m3 = None
-    # with -j the summary lists failures; fall back on it
-    for m in re.finditer(r"Verification failed for - ([\w:]+)", out):
-        res[m.group(1).split("::")[-1]] = "FAILED"
+    failed_set = set(m.group(1).split("::")[-1] for m in re.finditer(r"Verification failed for - ([\w:]+)", out))
     mt = re.search(r"Complete - (\d+) successfully verified harnesses, (\d+) failures, (\d+) total", out)
     for m in re.finditer(r"Verification Time: ([\d.]+)s", out):
         r.solver_s += float(m.group(1))
+    prev = ""
+    for line in out.split("\n"):
+        m = re.search(r"in (?:[\w]+::)*(\w+)\s*$", line)
+        if m and "File:" in line:
+            blocks.setdefault(m.group(1), []).append(norm_ws(prev) + " @ " + norm_ws(line))
+        prev = line
     wanted = [h for h in harnesses if (not only or h in only)]
-    if mt is None and len(res) < len(wanted):
-        r.undecided = "kani did not report all harnesses (%d of %d): %s" % (len(res), len(wanted), norm_ws(out[-400:]))
+    if mt is None:
+        r.undecided = "kani printed no summary: %s" % norm_ws(out[-400:])
         return r
-    if mt:
-        total = int(mt.group(3))
-        if total != len(wanted):
-            r.undecided = "kani ran %d harnesses, expected %d" % (total, len(wanted))
-            return r
-        nfail = int(mt.group(2))
-        for h in wanted:
-            if h not in res:
-                res[h] = "SUCCESSFUL"   # summary lists every failure explicitly
-        if nfail != sum(1 for h in wanted if res.get(h) == "FAILED"):
-            r.undecided = "kani summary (%d failures) disagrees with per-harness lines" % nfail
-            return r
+    total, nfail = int(mt.group(3)), int(mt.group(2))
+    if total != len(wanted):
+        r.undecided = "kani ran %d harnesses, expected %d" % (total, len(wanted))
+        return r
+    if nfail != len(failed_set) or not failed_set.issubset(set(wanted)):
+        r.undecided = "kani summary (%d failures) disagrees with the list of failed harnesses %s" % (nfail, sorted(failed_set))
+        return r
+    for h in wanted:
+        res[h] = "FAILED" if h in failed_set else "SUCCESSFUL"
     for h in wanted:
         props, name, note = harnesses[h]
         if h == "canary_must_fail":
@@ -338,7 +326,7 @@ def run_kani(unit, cfg, text, scratch, jobs=8, only=None, playback=False):
         else:
             r.error_count += 1
             blk = "\n".join(blocks.get(h, []))
-            fails = [norm_ws(l) for l in blk.split("\n") if "Failed Checks:" in l]
+            fails = [l for l in blocks.get(h, [])]
             r.failed.append({"id": obligation_id(props, name), "props": props, "kind": "kani", "message": "; ".join(fails)[:800] or "harness failed",
                              "text": note, "clause": note, "rendered": blk[-3000:], "unit": unit.name, "cfg": cfg, "harness": h})
     if "canary_must_fail" in harnesses and (not only or "canary_must_fail" in only):
@@ -355,7 +343,7 @@ def parse_playback(out):
     """{harness: [values as printed in the comments of the generated playback test]}"""
     res = {}
     for m in re.finditer(r"fn kani_concrete_playback_(\w+?)_\d+\(\)\s*\{(.*?)kani::concrete_playback_run", out, re.S):
-        vals = re.findall(r"//\s*(.+)\n\s*vec!\[", m.group(2))
+        vals = re.findall(r"//\s*(.+?)\s*\n\s*vec!\[", m.group(2))
         res[m.group(1)] = vals
     return res
 
